@@ -433,9 +433,15 @@ impl RdbEngine {
                 
                 // Write each key-value pair
                 for key in keys {
+                    #[cfg(ferrous_verif)]
+                    crate::verif::gate_tagged("rdb:before_key", &key);
+                    
                     // Get value
                     match storage.get(db_idx, &key)? {
                         GetResult::Found(value) => {
+                            #[cfg(ferrous_verif)]
+                            crate::verif::gate_tagged("rdb:between_value_and_ttl", &key);
+                            
                             // Get TTL if any
                             let ttl = storage.ttl(db_idx, &key)?;
                             
@@ -568,6 +574,9 @@ impl<W: Write> RdbWriter<W> {
                 let len = skiplist.len();
                 self.write_length(len)?;
                 
+                #[cfg(ferrous_verif)]
+                crate::verif::gate_tagged("rdb:zset_after_len", key);
+                
                 // Note: This is a suboptimal approach since we need to materialize
                 // all members in memory. A better approach would be to have a streaming
                 // iterator in the SkipList implementation.
@@ -682,6 +691,9 @@ impl<W: Write> RdbWriter<W> {
     
     /// Write raw bytes
     fn write_raw(&mut self, data: &[u8]) -> io::Result<()> {
+        #[cfg(ferrous_verif)]
+        crate::verif::rdb_write_hook()?;
+        
         self.writer.write_all(data)?;
         self.bytes_written += data.len() as u64;
         // Update CRC (simplified - real implementation would use CRC64)
